@@ -382,6 +382,8 @@ def run(ctx):
                 for env in envs:
                     if not record(text, env, im.call(ev, env), sid, "after-recompile-cycle"):
                         return
+    ctx.layer("call-failpoints", "observed" if ctx.counters.get("in-process/faulted-calls/fault-raised") else "unreachable",
+              faults_raised=ctx.counters.get("in-process/faulted-calls/fault-raised", 0))
     ctx.count("in-process/instances", serial[0])
     ctx.count("in-process/distinct-pairs", len(table))
 
